@@ -143,10 +143,10 @@ def sp_text(tid: int, crit: bool, lform: int, n: int, b0: int, b1: int, b2: int)
 
 @ob('O5.1-flags', 'flag-octet subpackets (key flags, features, key server preferences): every value of every flag octet, 1..3 octets',
     'types 23 and 30: 1..3 symbolic octets over all 256 values; type 27 (key flags, 7 known bits = 128 paths per octet): one fully symbolic '
-    'octet (quick), two octets with the first split 8 ways (thorough); critical bit, length form 1/5',
+    'octet (quick), two octets with the first split 32 ways (thorough); critical bit, length form 1/5',
     cond_timeout={'q': 300, 't': 1200},
     partitions={'q': [['tid == 23'], ['tid == 30'], ['tid == 27', 'n == 1']],
-                't': [['tid == 23'], ['tid == 30'], ['tid == 27', 'n == 1']] + [['tid == 27', 'n == 2', 'b0 % 8 == ' + str(k)] for k in range(8)]})
+                't': [['tid == 23'], ['tid == 30'], ['tid == 27', 'n == 1']] + [['tid == 27', 'n == 2', 'b0 % 32 == ' + str(k), 'lform == %d' % f] for k in range(32) for f in (1, 5)]})
 def sp_flags(tid: int, crit: bool, lform: int, n: int, b0: int, b1: int, b2: int) -> bool:
     """
     pre: tid in (23, 27, 30)
